@@ -476,3 +476,16 @@ V("index mapping: ellipsis expanded without counting the consumed axes", "C19", 
 V("twin: index mapping with the kinds tested in another order", "C19", BASE, "            if ind is None:\n                elements.append((\"newaxis\", 0, 0))\n            elif ind is Ellipsis:\n                elements.append((\"ellipsis\", 0, 0))",
   "            if ind is Ellipsis:\n                elements.append((\"ellipsis\", 0, 0))\n            elif ind is None:\n                elements.append((\"newaxis\", 0, 0))", "silent")
 V("index mapping: an ellipsis that stands for no axis does not separate", "C19", BASE, "                expanded.append((\"separator\", 0, 0))", "                pass", "missed")
+
+
+# ------------------------------------------------------------------------------------------------ tensor diagrams over shapes (E14) and operand identity (E14.id)
+V("add_edge takes the LAST unused covariant index of the source", "C05", BASE, "        i = free_source.pop(0)\n", "        i = free_source.pop()\n", "E14", "TensorDiagram.calculate", quick=True)
+V("calculate: contravariant indices before the covariant ones in the result", "C05", BASE, "result_indices[0] + result_indices[1] + result_indices[2])", "result_indices[0] + result_indices[2] + result_indices[1])", "E14", "TensorDiagram.calculate")
+V("calculate: one covariant index too many in the result type", "C05", BASE, "        return Tensor(result, covariant=range(n_cov), tensor_rank=result.ndim - n_free, copy=False)",
+  "        return Tensor(result, covariant=range(n_cov + 1), tensor_rank=result.ndim - n_free, copy=False)", "E14", "TensorDiagram.calculate")
+V("calculate: collection axes aligned from the left", "C05", BASE, "                free_ind = list(reversed(range(node.free_indices)))", "                free_ind = list(range(node.free_indices))", "E14", "TensorDiagram.calculate")
+V("calculate: result offsets of the unused contravariant indices dropped", "C05", BASE, "            result_indices[2].extend(offset + x for x in ind[1])", "            result_indices[2].extend(x for x in ind[1])", "E14", "TensorDiagram.calculate")
+V("twin: add_edge removes the first unused index with del", "C05", BASE, "        i = free_source.pop(0)\n        j = free_target.pop(0)\n", "        i = free_source[0]\n        del free_source[0]\n        j = free_target[0]\n        del free_target[0]\n", "silent")
+V("twin: calculate labels a contracted pair with the larger subscript", "C05", BASE, "            indices[max(i, j)] = min(i, j)", "            indices[min(i, j)] = max(i, j)", "missed")
+V("D24 regression: join/meet put the caller's objects themselves into the diagram", "C02", POINT, "    args = tuple(o.copy() for o in args)\n", "", "E14.id", "_join_meet_duality")
+V("twin: join/meet copy their arguments one by one", "C02", POINT, "    args = tuple(o.copy() for o in args)\n", "    args = tuple([a.copy() for a in args])\n", "silent")
